@@ -217,6 +217,7 @@ pub struct Model {
     pub intro_queries: BTreeMap<u32, U>,
     pub next_id: [u32; 5],
     pub next_bserial: u32,
+    pub next_qserial: u32,
     pub broker_shutdown: bool,
     pub broker_idle_requested: bool,
     /// gauge anomalies the model knows about (finding F2), for the statistics comparison
@@ -267,6 +268,7 @@ impl Model {
             intro_queries: BTreeMap::new(),
             next_id: [0; 5],
             next_bserial: 0,
+            next_qserial: 0,
             broker_shutdown: false,
             broker_idle_requested: false,
             introspection_enabled: true,
@@ -280,6 +282,12 @@ impl Model {
         let i = self.next_id[kind as usize];
         self.next_id[kind as usize] += 1;
         sym::cid(kind, i)
+    }
+
+    pub(crate) fn fresh_qserial(&mut self) -> u32 {
+        let s = sym::qserial(self.next_qserial);
+        self.next_qserial += 1;
+        s
     }
 
     pub(crate) fn fresh_bserial(&mut self) -> u32 {
@@ -641,7 +649,7 @@ impl Model {
                     if e.queried.is_none() {
                         let pick = self.rand_pick.min(e.registered.len() - 1);
                         let r = e.registered[pick];
-                        let t = self.fresh_bserial();
+                        let t = self.fresh_qserial();
                         let e = self.intro.get_mut(&tid).unwrap();
                         e.queried = Some((r, t));
                         self.intro_queries.insert(t, tid);
